@@ -108,6 +108,8 @@ def run(ctx):
     sub.rep = Report('C06', ctx.tier)
     run_c06(sub)
     for o in sub.rep.obligations:
+        if o['rule'] not in ('R2', 'R3', 'R4', 'R5'):
+            continue      # one-write-per-proposal / who-may-write are not needed for the hill-climb argument
         if o['ok']:
             rep.ok('R4', 'C06:' + o['rule'] + '/' + o['instance'], o['construct'], o['why'])
         else:
